@@ -1,4 +1,6 @@
-//! `bytes` driver (C01 C02 C03 C07 C09): operation sequences on HipByt / HipStr, every backend.
+//! `bytes` driver (C01 C02 C03 C07 C09): operation sequences on HipByt / HipStr / HipOsStr / HipPath, every backend.
+//! (HipOsStr and HipPath are unvalidated bytes on unix: their cases are replayed on the byte-string model, `TByt`; `wrappers_api`
+//! adds the std-differential checks of their own surface and of the conversions between the four types and std.)
 //!
 //! After every op the driver (1) checks the property oracles on the real implementation -- content of every live handle against a
 //! std shadow value (`Vec<u8>`/`String` semantics), outcome against std's outcome, views inside live allocator blocks, allocator
@@ -7,12 +9,17 @@
 use crate::alloc;
 use crate::util::*;
 use hipstr::bytes::HipByt;
+use hipstr::os_string::HipOsStr;
+use hipstr::path::HipPath;
 use hipstr::string::HipStr;
 use hipstr::{Arc, Backend, Rc, Unique};
+use std::borrow::Cow;
+use std::ffi::{OsStr, OsString};
 use std::fmt::Write as _;
 use std::ops::Bound;
+use std::os::unix::ffi::{OsStrExt, OsStringExt};
 use std::panic::AssertUnwindSafe;
-use std::path::Path;
+use std::path::{Path, PathBuf};
 
 pub const DIG_MOD: u128 = 2305843009213693951;
 pub fn digest(b: &[u8]) -> u128 {
@@ -78,13 +85,43 @@ impl Out {
     }
 }
 
-pub enum H<B: Backend> { Byt(HipByt<'static, B>), Str(HipStr<'static, B>) }
-impl<B: Backend> H<B> {
-    fn raw(&self) -> &HipByt<'static, B> { match self { H::Byt(b) => b, H::Str(s) => s.verif_bytes() } }
+/// The type under test of a case. `Os` and `Path` are unvalidated bytes on unix: the model type of their cases is `TByt`.
+#[derive(Clone, Copy, Debug, PartialEq, Eq)]
+pub enum Ty { Byt, Str, Os, Path }
+pub const ALL_TY: [Ty; 4] = [Ty::Byt, Ty::Str, Ty::Os, Ty::Path];
+impl Ty {
+    pub fn is_str(self) -> bool { self == Ty::Str }
+    pub fn is_wrapper(self) -> bool { matches!(self, Ty::Os | Ty::Path) }
+    pub fn name(self) -> &'static str { match self { Ty::Byt => "byt", Ty::Str => "str", Ty::Os => "os", Ty::Path => "path" } }
+    pub fn coq(self) -> &'static str { if self.is_str() { "TStr" } else { "TByt" } }
+    fn idx(self) -> u64 { match self { Ty::Byt => 0, Ty::Str => 1, Ty::Os => 2, Ty::Path => 3 } }
+    /// Does the type have a counterpart of `op`? (Byt / Str: everything the driver ever generated; the type-specific ops of the other
+    /// one are skipped by `exec`, as before.)
+    pub fn supports(self, op: &Op) -> bool {
+        use Op::*;
+        if !self.is_wrapper() { return true; }
+        match op {
+            New | Borrowed(_) | FromSlice(_) | FromVec(..) | Clone(_) | ShrinkTo(..) | ShrinkToFit(_) | IntoOwned(_) | IntoVec(_) | VecFrom(_)
+            | IntoBorrowed(_) | AsBorrowed(_) | Drop(_) | ForceCount(..) | RestoreCount(_) => true,
+            // no truncate on OsString / PathBuf
+            Mutate(_, script, _) => !script.iter().any(|v| matches!(v, VOp::Truncate(_))),
+            // HipPath has neither with_capacity, nor slice_ref*, nor any direct append
+            WithCapacity(_) | SliceRef(..) | SliceRefU(..) | SliceRefForeign(..) | PushSlice(..) => self == Ty::Os,
+            Inline(_) | TryInline(_) | FromUtf8(_) | Slice(..) | TrySlice(..) | Push(..) | Pop(_) | Truncate(..) | Clear(_) | AsMutWrite(..)
+            | ToMutWrite(..) | MakeAscii(..) | ToAscii(..) | Repeat(..) => false,
+        }
+    }
 }
 
+pub enum H<B: Backend> { Byt(HipByt<'static, B>), Str(HipStr<'static, B>), Os(HipOsStr<'static, B>), Path(HipPath<'static, B>) }
+impl<B: Backend> H<B> {
+    fn raw(&self) -> &HipByt<'static, B> { match self { H::Byt(b) => b, H::Str(s) => s.verif_bytes(), H::Os(s) => s.verif_bytes(), H::Path(s) => s.verif_bytes() } }
+}
+fn os(b: &[u8]) -> &OsStr { OsStr::from_bytes(b) }
+fn pa(b: &[u8]) -> &Path { Path::new(OsStr::from_bytes(b)) }
+
 pub struct Pool<B: Backend> {
-    pub is_str: bool,
+    pub ty: Ty,
     pub hs: Vec<Option<H<B>>>,
     pub shadow: Vec<Option<Vec<u8>>>,          // the std model of each handle (oracle of C01)
     pub srcs: Vec<&'static [u8]>,              // leaked borrow sources, each with one trailing pad byte
@@ -104,8 +141,8 @@ fn kbyt(k: hipstr::bytes::SliceErrorKind) -> &'static str {
 fn st(b: &[u8]) -> &str { std::str::from_utf8(b).expect("harness: str case with invalid utf8") }
 
 impl<B: Backend> Pool<B> {
-    pub fn new(is_str: bool, unique_backend: bool) -> Self {
-        Pool { is_str, hs: vec![], shadow: vec![], srcs: vec![], src_copy: vec![], viol: vec![], unique_backend }
+    pub fn new(ty: Ty, unique_backend: bool) -> Self {
+        Pool { ty, hs: vec![], shadow: vec![], srcs: vec![], src_copy: vec![], viol: vec![], unique_backend }
     }
     fn add(&mut self, h: H<B>, sh: Vec<u8>) -> Out {
         self.hs.push(Some(h)); self.shadow.push(Some(sh)); Out::New(self.hs.len() - 1)
@@ -116,16 +153,19 @@ impl<B: Backend> Pool<B> {
         self.srcs.push(leaked); self.src_copy.push(leaked.to_vec());
         &leaked[..x.len()]
     }
-    fn mk(&self, b: HipByt<'static, B>) -> H<B> {
-        if self.is_str { H::Str(HipStr::try_from(b).ok().expect("harness: invalid utf8 in a str case")) } else { H::Byt(b) }
-    }
     fn live(&self, h: usize) -> bool { h < self.hs.len() && self.hs[h].is_some() }
     fn v(&mut self, s: String) { if self.viol.len() < 20 { self.viol.push(s); } }
 
     /// Executes one op on the implementation (inside an allocator window, under catch_unwind) and on the std shadow.
     pub fn exec(&mut self, op: &Op) -> Out {
         use Op::*;
-        let is_str = self.is_str;
+        let ty = self.ty;
+        let is_str = ty.is_str();
+        if !ty.supports(op) {
+            // never generated for this type: the generators are wrong if one arrives here
+            self.v(format!("harness bug: {:?} has no counterpart for ty={}", op, ty.name()));
+            return Out::Skip;
+        }
         // ops on a dead handle are skipped on both sides
         let target = match op {
             Clone(h) | Slice(h, ..) | TrySlice(h, ..) | SliceRef(h, ..) | SliceRefU(h, ..) | SliceRefForeign(h, ..) | Push(h, ..) | PushSlice(h, ..) | Pop(h) | Truncate(h, ..) | Clear(h)
@@ -135,7 +175,7 @@ impl<B: Backend> Pool<B> {
         };
         if let Some(h) = target { if !self.live(h) { return Out::Skip; } }
         match op {
-            New => { let h = alloc::window(|| if is_str { H::Str(HipStr::new()) } else { H::Byt(HipByt::new()) }); self.add(h, vec![]) }
+            New => { let h = alloc::window(|| match ty { Ty::Byt => H::Byt(HipByt::new()), Ty::Str => H::Str(HipStr::new()), Ty::Os => H::Os(HipOsStr::new()), Ty::Path => H::Path(HipPath::new()) }); self.add(h, vec![]) }
             Inline(x) => {
                 if is_str { return Out::Skip; }
                 match quiet_catch(AssertUnwindSafe(|| alloc::window(|| HipByt::<B>::inline(x)))) {
@@ -150,18 +190,27 @@ impl<B: Backend> Pool<B> {
                     None => { if x.len() <= 23 { self.v("try_inline rejected <= 23 bytes".into()); } Out::None_ }
                 }
             }
-            WithCapacity(n) => { let h = alloc::window(|| if is_str { H::Str(HipStr::with_capacity(*n)) } else { H::Byt(HipByt::with_capacity(*n)) }); self.add(h, vec![]) }
+            WithCapacity(n) => {
+                let h = alloc::window(|| match ty { Ty::Byt => H::Byt(HipByt::with_capacity(*n)), Ty::Str => H::Str(HipStr::with_capacity(*n)), Ty::Os => H::Os(HipOsStr::with_capacity(*n)), Ty::Path => unreachable!() });
+                self.add(h, vec![])
+            }
             Borrowed(x) => {
                 let s = self.add_src(x);
-                let h = alloc::window(|| if is_str { H::Str(HipStr::borrowed(st(s))) } else { H::Byt(HipByt::borrowed(s)) });
+                let h = alloc::window(|| match ty { Ty::Byt => H::Byt(HipByt::borrowed(s)), Ty::Str => H::Str(HipStr::borrowed(st(s))), Ty::Os => H::Os(HipOsStr::borrowed(os(s))), Ty::Path => H::Path(HipPath::borrowed(pa(s))) });
                 self.add(h, x.clone())
             }
-            FromSlice(x) => { let h = alloc::window(|| if is_str { H::Str(HipStr::from(st(x))) } else { H::Byt(HipByt::from(&x[..])) }); self.add(h, x.clone()) }
+            FromSlice(x) => {
+                let h = alloc::window(|| match ty { Ty::Byt => H::Byt(HipByt::from(&x[..])), Ty::Str => H::Str(HipStr::from(st(x))), Ty::Os => H::Os(HipOsStr::from(os(x))), Ty::Path => H::Path(HipPath::from(pa(x))) });
+                self.add(h, x.clone())
+            }
             FromVec(x, extra) => {
                 let h = alloc::window(|| {
                     let mut v = Vec::with_capacity(x.len() + extra);
                     v.extend_from_slice(x);
-                    if is_str { H::Str(HipStr::from(String::from_utf8(v).unwrap())) } else { H::Byt(HipByt::from(v)) }
+                    match ty {
+                        Ty::Byt => H::Byt(HipByt::from(v)), Ty::Str => H::Str(HipStr::from(String::from_utf8(v).unwrap())),
+                        Ty::Os => H::Os(HipOsStr::from(OsString::from_vec(v))), Ty::Path => H::Path(HipPath::from(PathBuf::from(OsString::from_vec(v)))),
+                    }
                 });
                 self.add(h, x.clone())
             }
@@ -175,7 +224,7 @@ impl<B: Backend> Pool<B> {
                 }
             }
             Clone(h) => {
-                let c = alloc::window(|| match self.hs[*h].as_ref().unwrap() { H::Byt(b) => H::Byt(b.clone()), H::Str(s) => H::Str(s.clone()) });
+                let c = alloc::window(|| match self.hs[*h].as_ref().unwrap() { H::Byt(b) => H::Byt(b.clone()), H::Str(s) => H::Str(s.clone()), H::Os(s) => H::Os(s.clone()), H::Path(s) => H::Path(s.clone()) });
                 let sh = self.shadow[*h].clone().unwrap();
                 self.add(c, sh)
             }
@@ -187,6 +236,7 @@ impl<B: Backend> Pool<B> {
                 let r = quiet_catch(AssertUnwindSafe(|| alloc::window(|| match src {
                     H::Byt(b) => if try_ { b.try_slice((*s, *e)).map(H::Byt).map_err(|er| (kbyt(er.kind()), er.start(), er.end())) } else { Ok(H::Byt(b.slice((*s, *e)))) },
                     H::Str(b) => if try_ { b.try_slice((*s, *e)).map(H::Str).map_err(|er| (kstr(er.kind()), er.start(), er.end())) } else { Ok(H::Str(b.slice((*s, *e)))) },
+                    H::Os(_) | H::Path(_) => unreachable!(),
                 })));
                 match r {
                     Ok(Ok(n)) => { match oracle { Some(o) => self.add(n, o), None => { self.v(format!("{:?} accepted where std rejects", op)); let c = n.raw().as_slice().to_vec(); self.add(n, c) } } }
@@ -204,7 +254,9 @@ impl<B: Backend> Pool<B> {
                 let r = quiet_catch(AssertUnwindSafe(|| alloc::window(|| match src {
                     // the unchecked form is the adoption path of the str API (trim, split, ...): its precondition holds here
                     H::Byt(b) => H::Byt(if unchecked { unsafe { b.slice_ref_unchecked(sub) } } else { b.slice_ref(sub) }),
-                    H::Str(b) => H::Str(if unchecked { unsafe { b.slice_ref_unchecked(st(sub)) } } else { b.slice_ref(st(sub)) }) })));
+                    H::Str(b) => H::Str(if unchecked { unsafe { b.slice_ref_unchecked(st(sub)) } } else { b.slice_ref(st(sub)) }),
+                    H::Os(b) => H::Os(if unchecked { unsafe { b.slice_ref_unchecked(os(sub)) } } else { b.slice_ref(os(sub)) }),
+                    H::Path(_) => unreachable!() })));
                 match r {
                     Ok(nh) => { let sh = self.shadow[*h].as_ref().unwrap()[*off..*off + *n].to_vec(); self.add(nh, sh) }
                     Err(m) => { alloc::set_window(false); self.v(format!("{:?} panicked on an in-range sub-slice: {}", op, m)); Out::Panic }
@@ -214,11 +266,11 @@ impl<B: Backend> Pool<B> {
                 let foreign: &'static [u8] = b"foreign-bytes";
                 let src = self.hs[*h].as_ref().unwrap();
                 if *try_ {
-                    let r = alloc::window(|| match src { H::Byt(b) => b.try_slice_ref(foreign).is_some(), H::Str(b) => b.try_slice_ref(st(foreign)).is_some() });
+                    let r = alloc::window(|| match src { H::Byt(b) => b.try_slice_ref(foreign).is_some(), H::Str(b) => b.try_slice_ref(st(foreign)).is_some(), H::Os(b) => b.try_slice_ref(os(foreign)).is_some(), H::Path(_) => unreachable!() });
                     if r { self.v("try_slice_ref accepted a foreign slice".into()); }
                     Out::None_
                 } else {
-                    let r = quiet_catch(AssertUnwindSafe(|| alloc::window(|| match src { H::Byt(b) => { let _ = b.slice_ref(foreign); } H::Str(b) => { let _ = b.slice_ref(st(foreign)); } })));
+                    let r = quiet_catch(AssertUnwindSafe(|| alloc::window(|| match src { H::Byt(b) => { let _ = b.slice_ref(foreign); } H::Str(b) => { let _ = b.slice_ref(st(foreign)); } H::Os(b) => { let _ = b.slice_ref(os(foreign)); } H::Path(_) => unreachable!() })));
                     alloc::set_window(false);
                     if r.is_ok() { self.v("slice_ref accepted a foreign slice".into()); }
                     Out::Panic
@@ -226,20 +278,20 @@ impl<B: Backend> Pool<B> {
             }
             Push(h, c) => {
                 let hd = self.hs[*h].as_mut().unwrap();
-                alloc::window(|| match hd { H::Byt(b) => b.push(*c as u8), H::Str(s) => s.push(char::from_u32(*c).unwrap()) });
+                alloc::window(|| match hd { H::Byt(b) => b.push(*c as u8), H::Str(s) => s.push(char::from_u32(*c).unwrap()), H::Os(_) | H::Path(_) => unreachable!() });
                 let sh = self.shadow[*h].as_mut().unwrap();
                 if is_str { let mut s = String::from_utf8(std::mem::take(sh)).unwrap(); s.push(char::from_u32(*c).unwrap()); *sh = s.into_bytes(); } else { sh.push(*c as u8); }
                 Out::Unit
             }
             PushSlice(h, x) => {
                 let hd = self.hs[*h].as_mut().unwrap();
-                alloc::window(|| match hd { H::Byt(b) => b.push_slice(x), H::Str(s) => s.push_str(st(x)) });
+                alloc::window(|| match hd { H::Byt(b) => b.push_slice(x), H::Str(s) => s.push_str(st(x)), H::Os(s) => s.push(os(x)), H::Path(_) => unreachable!() });
                 self.shadow[*h].as_mut().unwrap().extend_from_slice(x);
                 Out::Unit
             }
             Pop(h) => {
                 let hd = self.hs[*h].as_mut().unwrap();
-                let r = alloc::window(|| match hd { H::Byt(b) => b.pop().map(|x| x as u32), H::Str(s) => s.pop().map(|c| c as u32) });
+                let r = alloc::window(|| match hd { H::Byt(b) => b.pop().map(|x| x as u32), H::Str(s) => s.pop().map(|c| c as u32), H::Os(_) | H::Path(_) => unreachable!() });
                 let r: Option<Vec<u8>> = r.map(|c| if is_str { char::from_u32(c).unwrap().to_string().into_bytes() } else { vec![c as u8] });
                 let sh = self.shadow[*h].as_mut().unwrap();
                 let o = if is_str { let mut s = String::from_utf8(std::mem::take(sh)).unwrap(); let p = s.pop().map(|c| c.to_string().into_bytes()); *sh = s.into_bytes(); p } else { sh.pop().map(|x| vec![x]) };
@@ -249,7 +301,7 @@ impl<B: Backend> Pool<B> {
             Truncate(h, m) => {
                 let std_panics = { let sh = self.shadow[*h].as_ref().unwrap(); is_str && *m <= sh.len() && !st(sh).is_char_boundary(*m) };
                 let hd = self.hs[*h].as_mut().unwrap();
-                let r = quiet_catch(AssertUnwindSafe(|| alloc::window(|| match hd { H::Byt(b) => b.truncate(*m), H::Str(s) => s.truncate(*m) })));
+                let r = quiet_catch(AssertUnwindSafe(|| alloc::window(|| match hd { H::Byt(b) => b.truncate(*m), H::Str(s) => s.truncate(*m), H::Os(_) | H::Path(_) => unreachable!() })));
                 match r {
                     Ok(()) => { if std_panics { self.v(format!("truncate({}) inside a code point did not panic", m)); } let sh = self.shadow[*h].as_mut().unwrap(); if *m < sh.len() { sh.truncate(*m); } Out::Unit }
                     Err(msg) => { alloc::set_window(false); if !std_panics { self.v(format!("truncate({}) panicked: {}", m, msg)); } Out::Panic }
@@ -257,19 +309,19 @@ impl<B: Backend> Pool<B> {
             }
             Clear(h) => {
                 let hd = self.hs[*h].as_mut().unwrap();
-                let r = quiet_catch(AssertUnwindSafe(|| alloc::window(|| match hd { H::Byt(b) => b.clear(), H::Str(s) => s.clear() })));
+                let r = quiet_catch(AssertUnwindSafe(|| alloc::window(|| match hd { H::Byt(b) => b.clear(), H::Str(s) => s.clear(), H::Os(_) | H::Path(_) => unreachable!() })));
                 self.shadow[*h].as_mut().unwrap().clear();
                 if let Err(m) = r { alloc::set_window(false); self.v(format!("clear panicked: {}", m)); return Out::Panic; }
                 Out::Unit
             }
             ShrinkTo(h, m) => {
                 let hd = self.hs[*h].as_mut().unwrap();
-                alloc::window(|| match hd { H::Byt(b) => b.shrink_to(*m), H::Str(s) => s.shrink_to(*m) });
+                alloc::window(|| match hd { H::Byt(b) => b.shrink_to(*m), H::Str(s) => s.shrink_to(*m), H::Os(s) => s.shrink_to(*m), H::Path(s) => s.shrink_to(*m) });
                 Out::Unit
             }
             ShrinkToFit(h) => {
                 let hd = self.hs[*h].as_mut().unwrap();
-                alloc::window(|| match hd { H::Byt(b) => b.shrink_to_fit(), H::Str(s) => s.shrink_to_fit() });
+                alloc::window(|| match hd { H::Byt(b) => b.shrink_to_fit(), H::Str(s) => s.shrink_to_fit(), H::Os(s) => s.shrink_to_fit(), H::Path(s) => s.shrink_to_fit() });
                 Out::Unit
             }
             AsMutWrite(h, i, b) => {
@@ -292,13 +344,13 @@ impl<B: Backend> Pool<B> {
             }
             MakeAscii(h, up) => {
                 let hd = self.hs[*h].as_mut().unwrap();
-                alloc::window(|| match hd { H::Byt(b) => if *up { b.make_ascii_uppercase() } else { b.make_ascii_lowercase() }, H::Str(s) => if *up { s.make_ascii_uppercase() } else { s.make_ascii_lowercase() } });
+                alloc::window(|| match hd { H::Byt(b) => if *up { b.make_ascii_uppercase() } else { b.make_ascii_lowercase() }, H::Str(s) => if *up { s.make_ascii_uppercase() } else { s.make_ascii_lowercase() }, H::Os(_) | H::Path(_) => unreachable!() });
                 let sh = self.shadow[*h].as_mut().unwrap(); if *up { sh.make_ascii_uppercase() } else { sh.make_ascii_lowercase() }
                 Out::Unit
             }
             ToAscii(h, up) => {
                 let hd = self.hs[*h].as_ref().unwrap();
-                let n = alloc::window(|| match hd { H::Byt(b) => H::Byt(if *up { b.to_ascii_uppercase() } else { b.to_ascii_lowercase() }), H::Str(s) => H::Str(if *up { s.to_ascii_uppercase() } else { s.to_ascii_lowercase() }) });
+                let n = alloc::window(|| match hd { H::Byt(b) => H::Byt(if *up { b.to_ascii_uppercase() } else { b.to_ascii_lowercase() }), H::Str(s) => H::Str(if *up { s.to_ascii_uppercase() } else { s.to_ascii_lowercase() }), H::Os(_) | H::Path(_) => unreachable!() });
                 let sh = self.shadow[*h].as_ref().unwrap(); let o = if *up { sh.to_ascii_uppercase() } else { sh.to_ascii_lowercase() };
                 self.add(n, o)
             }
@@ -306,7 +358,7 @@ impl<B: Backend> Pool<B> {
                 let sh = self.shadow[*h].clone().unwrap();
                 let overflow = sh.len().checked_mul(*k).map_or(true, |n| n > isize::MAX as usize) && !(sh.is_empty() || *k == 1);
                 let hd = self.hs[*h].as_ref().unwrap();
-                let r = quiet_catch(AssertUnwindSafe(|| alloc::window(|| match hd { H::Byt(b) => H::Byt(b.repeat(*k)), H::Str(s) => H::Str(s.repeat(*k)) })));
+                let r = quiet_catch(AssertUnwindSafe(|| alloc::window(|| match hd { H::Byt(b) => H::Byt(b.repeat(*k)), H::Str(s) => H::Str(s.repeat(*k)), H::Os(_) | H::Path(_) => unreachable!() })));
                 match r {
                     Ok(n) => { if overflow { self.v("repeat did not panic on overflow".into()); } let o = sh.repeat(*k); self.add(n, o) }
                     Err(m) => { alloc::set_window(false); if !overflow { self.v(format!("repeat({}) panicked: {}", k, m)); } Out::Panic }
@@ -325,6 +377,17 @@ impl<B: Backend> Pool<B> {
                         for o in script { match o { VOp::Push(x) => g.push(*x as char), VOp::Extend(x) => g.push_str(st(x)), VOp::Truncate(n) => g.truncate(*n), VOp::Clear => g.clear(), VOp::Reserve(n) => g.reserve(*n), VOp::ShrinkFit => g.shrink_to_fit() } }
                         if *leak { std::mem::forget(g); }
                     }
+                    // the guards deref to OsString / PathBuf: appends go through OsString::push (PathBuf::push would insert separators)
+                    H::Os(s) => {
+                        let mut g = s.mutate();
+                        for o in script { match o { VOp::Push(x) => g.push(os(std::slice::from_ref(x))), VOp::Extend(x) => g.push(os(x)), VOp::Truncate(_) => unreachable!(), VOp::Clear => g.clear(), VOp::Reserve(n) => g.reserve(*n), VOp::ShrinkFit => g.shrink_to_fit() } }
+                        if *leak { std::mem::forget(g); }
+                    }
+                    H::Path(s) => {
+                        let mut g = s.mutate();
+                        for o in script { match o { VOp::Push(x) => g.as_mut_os_string().push(os(std::slice::from_ref(x))), VOp::Extend(x) => g.as_mut_os_string().push(os(x)), VOp::Truncate(_) => unreachable!(), VOp::Clear => g.clear(), VOp::Reserve(n) => g.reserve(*n), VOp::ShrinkFit => g.shrink_to_fit() } }
+                        if *leak { std::mem::forget(g); }
+                    }
                 });
                 let sh = self.shadow[*h].as_mut().unwrap();
                 if *leak { sh.clear(); } else {
@@ -334,7 +397,7 @@ impl<B: Backend> Pool<B> {
             }
             IntoOwned(h) => {
                 let hd = self.hs[*h].take().unwrap();
-                let n = alloc::window(|| match hd { H::Byt(b) => H::Byt(b.into_owned()), H::Str(s) => H::Str(s.into_owned()) });
+                let n = alloc::window(|| match hd { H::Byt(b) => H::Byt(b.into_owned()), H::Str(s) => H::Str(s.into_owned()), H::Os(s) => H::Os(s.into_owned()), H::Path(s) => H::Path(s.into_owned()) });
                 self.hs[*h] = Some(n);
                 Out::Unit
             }
@@ -343,6 +406,8 @@ impl<B: Backend> Pool<B> {
                 let r = alloc::window(|| match hd {
                     H::Byt(b) => b.into_vec().map(|v| { let r = (v.clone_outside(), v.capacity()); drop(v); r }).map_err(H::Byt),
                     H::Str(s) => s.into_string().map(|v| { let v = v.into_bytes(); let r = (v.clone_outside(), v.capacity()); drop(v); r }).map_err(H::Str),
+                    H::Os(s) => s.into_os_string().map(|v| { let v = v.into_vec(); let r = (v.clone_outside(), v.capacity()); drop(v); r }).map_err(H::Os),
+                    H::Path(s) => s.into_path_buf().map(|v| { let v = v.into_os_string().into_vec(); let r = (v.clone_outside(), v.capacity()); drop(v); r }).map_err(H::Path),
                 });
                 match r {
                     Ok((v, cap)) => { if Some(&v) != self.shadow[*h].as_ref() { self.v(format!("into_vec returned {} expected {:?}", hex(&v), self.shadow[*h].as_ref().map(|x| hex(x)))); } self.shadow[*h] = None; Out::Vec_(v, cap) }
@@ -354,6 +419,8 @@ impl<B: Backend> Pool<B> {
                 let (v, cap) = alloc::window(|| match hd {
                     H::Byt(b) => { let v: Vec<u8> = b.into(); let r = (v.clone_outside(), v.capacity()); drop(v); r }
                     H::Str(s) => { let v: String = s.into(); let v = v.into_bytes(); let r = (v.clone_outside(), v.capacity()); drop(v); r }
+                    H::Os(s) => { let v: OsString = s.into(); let v = v.into_vec(); let r = (v.clone_outside(), v.capacity()); drop(v); r }
+                    H::Path(s) => { let v: PathBuf = s.into(); let v = v.into_os_string().into_vec(); let r = (v.clone_outside(), v.capacity()); drop(v); r }
                 });
                 if Some(&v) != self.shadow[*h].as_ref() { self.v(format!("Vec::from returned {} expected {:?}", hex(&v), self.shadow[*h].as_ref().map(|x| hex(x)))); }
                 self.shadow[*h] = None;
@@ -361,7 +428,8 @@ impl<B: Backend> Pool<B> {
             }
             IntoBorrowed(h) => {
                 let hd = self.hs[*h].take().unwrap();
-                let r = alloc::window(|| match hd { H::Byt(b) => b.into_borrowed().map(|x| x.to_vec_outside()).map_err(H::Byt), H::Str(s) => s.into_borrowed().map(|x| x.as_bytes().to_vec_outside()).map_err(H::Str) });
+                let r = alloc::window(|| match hd { H::Byt(b) => b.into_borrowed().map(|x| x.to_vec_outside()).map_err(H::Byt), H::Str(s) => s.into_borrowed().map(|x| x.as_bytes().to_vec_outside()).map_err(H::Str),
+                    H::Os(s) => s.into_borrowed().map(|x| x.as_bytes().to_vec_outside()).map_err(H::Os), H::Path(s) => s.into_borrowed().map(|x| x.as_os_str().as_bytes().to_vec_outside()).map_err(H::Path) });
                 match r {
                     Ok(v) => { if Some(&v) != self.shadow[*h].as_ref() { self.v("into_borrowed content differs".into()); } self.shadow[*h] = None; Out::Some_(v) }
                     Err(hd) => { self.hs[*h] = Some(hd); Out::None_ }
@@ -369,7 +437,8 @@ impl<B: Backend> Pool<B> {
             }
             AsBorrowed(h) => {
                 let hd = self.hs[*h].as_ref().unwrap();
-                let r = alloc::window(|| match hd { H::Byt(b) => b.as_borrowed().map(|x| x.to_vec_outside()), H::Str(s) => s.as_borrowed().map(|x| x.as_bytes().to_vec_outside()) });
+                let r = alloc::window(|| match hd { H::Byt(b) => b.as_borrowed().map(|x| x.to_vec_outside()), H::Str(s) => s.as_borrowed().map(|x| x.as_bytes().to_vec_outside()),
+                    H::Os(s) => s.as_borrowed().map(|x| x.as_bytes().to_vec_outside()), H::Path(s) => s.as_borrowed().map(|x| x.as_os_str().as_bytes().to_vec_outside()) });
                 match r { Some(v) => { if Some(&v) != self.shadow[*h].as_ref() { self.v("as_borrowed content differs".into()); } Out::Some_(v) } None => Out::None_ }
             }
             Drop(h) => { let hd = self.hs[*h].take(); alloc::window(|| drop(hd)); self.shadow[*h] = None; Out::Unit }
@@ -405,6 +474,25 @@ impl<B: Backend> Pool<B> {
             if let H::Str(s) = h {
                 if std::str::from_utf8(s.as_bytes()).is_err() { viols.push(format!("h{} (HipStr) holds ill-formed UTF-8 {}", i, hex(bytes))); }
                 if s.len() != bytes.len() || s.as_str().as_bytes() != bytes { viols.push(format!("h{} as_str/len disagree", i)); }
+            }
+            // formatted text and the std-typed views of every live handle against std on the shadow value (never inside an accounting window)
+            if let Some(sh) = self.shadow[i].as_ref() {
+                alloc::pause(|| {
+                    let mut text = |what: &str, got: String, exp: String| { if got != exp { viols.push(format!("h{} {} text differs: got {} expected {}", i, what, got, exp)); } };
+                    match h {
+                        H::Byt(b) => text("Debug", format!("{:?}", b), format!("{:?}", &sh[..])),
+                        H::Str(s) => if let Ok(e) = std::str::from_utf8(sh) { text("Debug", format!("{:?}", s), format!("{:?}", e)); text("Display", format!("{}", s), format!("{}", e)); },
+                        H::Os(s) => {
+                            text("Debug", format!("{:?}", s), format!("{:?}", os(sh)));
+                            if s.as_os_str().as_bytes() != &sh[..] || s.len() != sh.len() || s.is_empty() != sh.is_empty() { viols.push(format!("h{} as_os_str/len disagree with the std model {}", i, hex(sh))); }
+                        }
+                        H::Path(s) => {
+                            text("Debug", format!("{:?}", s), format!("{:?}", pa(sh)));
+                            text("Display", s.display().to_string(), pa(sh).display().to_string());
+                            if s.as_path() != pa(sh) || s.as_path().as_os_str().as_bytes() != &sh[..] || s.as_os_str().as_bytes() != &sh[..] { viols.push(format!("h{} as_path/as_os_str disagree with the std model {}", i, hex(sh))); }
+                        }
+                    }
+                });
             }
             if raw.capacity() < raw.len() { viols.push(format!("h{} capacity {} < len {}", i, raw.capacity(), raw.len())); }
             let ptr = raw.as_ptr() as usize;
@@ -455,8 +543,13 @@ impl ToVecOutside for [u8] {
 // ------------------------------------------------------------------------------------------------ generators
 // the last five have continuation bytes at the edges of the continuation range (0x80 / 0xBF)
 const STR_ATOMS: [&str; 11] = ["a", "B", "\u{e9}", "\u{20ac}", "\u{1F980}", "z", "\u{c0}", "\u{2013}", "\u{10000}", "\u{7ff}", "\u{ffff}"];
-fn gen_bytes(rng: &mut Rng, is_str: bool, len: usize) -> Vec<u8> {
-    if is_str {
+fn gen_bytes(rng: &mut Rng, ty: Ty, len: usize) -> Vec<u8> {
+    if ty == Ty::Path {
+        // arbitrary bytes with many separators and dots ("." / ".." components, "//", trailing '/')
+        let base = rng.below(200) as u8;
+        return (0..len).map(|i| match rng.below(8) { 0 | 1 => b'/', 2 | 3 => b'.', _ => base.wrapping_add(i as u8) }).collect();
+    }
+    if ty.is_str() {
         let mut s = String::new();
         while s.len() < len {
             let a = *rng.pick(&STR_ATOMS);
@@ -476,19 +569,32 @@ fn gen_bound(rng: &mut Rng, len: usize, at: &dyn Fn(usize) -> usize) -> Bound<us
     match rng.below(5) { 0 => Bound::Unbounded, 1 => Bound::Included(v), _ => Bound::Excluded(v) }
 }
 
+/// Draws an op the type of the pool supports: unsupported draws are re-drawn (HipPath has no direct append: a `PushSlice` draw
+/// becomes a one-step `mutate` script, so that appends stay covered).
 fn gen_op<B: Backend>(rng: &mut Rng, p: &Pool<B>, force_ok: bool) -> Op {
-    let is_str = p.is_str;
+    loop {
+        let op = match gen_op_raw(rng, p, force_ok) {
+            Op::PushSlice(h, x) if p.ty == Ty::Path => Op::Mutate(h, vec![VOp::Extend(x)], false),
+            op => op,
+        };
+        if p.ty.supports(&op) { return op; }
+    }
+}
+fn gen_op_raw<B: Backend>(rng: &mut Rng, p: &Pool<B>, force_ok: bool) -> Op {
+    let ty = p.ty;
+    let is_str = ty.is_str();
     let live: Vec<usize> = (0..p.hs.len()).filter(|&i| p.hs[i].is_some()).collect();
     if live.is_empty() || (live.len() < 5 && rng.chance(1, 5)) {
         let n = gen_len(rng);
         return match rng.below(9) {
             0 => Op::New,
             1 => Op::WithCapacity(*rng.pick(&[0, 10, 23, 24, 30, 40, 100])),
-            2 => Op::Borrowed(gen_bytes(rng, is_str, n)),
-            3 | 4 => Op::FromSlice(gen_bytes(rng, is_str, n)),
-            5 | 6 => Op::FromVec(gen_bytes(rng, is_str, n), *rng.pick(&[0, 0, 1, 7, 30])),
-            7 => if is_str { Op::FromUtf8(if rng.chance(1, 2) { gen_bytes(rng, true, n) } else { let mut b = gen_bytes(rng, true, n.max(2)); let i = rng.below(b.len()); b[i] = *rng.pick(&[0x80, 0xC0, 0xED, 0xF5, 0xFF]); b }) } else { { let n = *rng.pick(&[0, 5, 23, 24]); Op::Inline(gen_bytes(rng, false, n)) } },
-            _ => if is_str { Op::FromSlice(gen_bytes(rng, true, n)) } else { { let n = *rng.pick(&[0, 5, 23, 24]); Op::TryInline(gen_bytes(rng, false, n)) } },
+            2 => Op::Borrowed(gen_bytes(rng, ty, n)),
+            3 | 4 => Op::FromSlice(gen_bytes(rng, ty, n)),
+            5 | 6 => Op::FromVec(gen_bytes(rng, ty, n), *rng.pick(&[0, 0, 1, 7, 30])),
+            _ if ty.is_wrapper() => if rng.chance(1, 2) { Op::Borrowed(gen_bytes(rng, ty, n)) } else { Op::FromSlice(gen_bytes(rng, ty, n)) },
+            7 => if is_str { Op::FromUtf8(if rng.chance(1, 2) { gen_bytes(rng, ty, n) } else { let mut b = gen_bytes(rng, ty, n.max(2)); let i = rng.below(b.len()); b[i] = *rng.pick(&[0x80, 0xC0, 0xED, 0xF5, 0xFF]); b }) } else { { let n = *rng.pick(&[0, 5, 23, 24]); Op::Inline(gen_bytes(rng, ty, n)) } },
+            _ => if is_str { Op::FromSlice(gen_bytes(rng, ty, n)) } else { { let n = *rng.pick(&[0, 5, 23, 24]); Op::TryInline(gen_bytes(rng, ty, n)) } },
         };
     }
     let h = *rng.pick(&live);
@@ -501,7 +607,7 @@ fn gen_op<B: Backend>(rng: &mut Rng, p: &Pool<B>, force_ok: bool) -> Op {
         9..=11 => { let a = boundary(rng.below(len + 1)); let b = if rng.chance(1, 3) { len } else { boundary(a + rng.below(len - a + 1)) }; let a = if rng.chance(1, 6) { 0 } else { a }; let (a, b) = (a.min(b), a.max(b)); if rng.chance(1, 2) { Op::SliceRefU(h, a, b - a) } else { Op::SliceRef(h, a, b - a) } }
         12 => Op::SliceRefForeign(h, rng.chance(1, 2)),
         13..=15 => if is_str { Op::Push(h, *rng.pick(&[0x61, 0xe9, 0x20ac, 0x1F980])) } else { Op::Push(h, rng.below(256) as u32) },
-        16..=18 => { let n = *rng.pick(&[0, 1, 3, 10, 22, 24, 40]); Op::PushSlice(h, gen_bytes(rng, is_str, n)) }
+        16..=18 => { let n = *rng.pick(&[0, 1, 3, 10, 22, 24, 40]); Op::PushSlice(h, gen_bytes(rng, ty, n)) }
         19..=20 => Op::Pop(h),
         21..=23 => { let m = match rng.below(6) { 0 => 0, 1 => len, 2 => len + 3, 3 => 23, 4 => 24, _ => rng.below(len + 1) }; Op::Truncate(h, if rng.chance(5, 6) { boundary(m.min(len)).max(if m > len { m } else { 0 }) } else { m }) }
         24 => Op::Clear(h),
@@ -518,7 +624,8 @@ fn gen_op<B: Backend>(rng: &mut Rng, p: &Pool<B>, force_ok: bool) -> Op {
             for _ in 0..rng.below(4) {
                 script.push(match rng.below(6) {
                     0 => { cur += 1; VOp::Push(if is_str { b'x' } else { rng.below(256) as u8 }) }
-                    1 => { let n = *rng.pick(&[1, 5, 24]); cur += n; VOp::Extend(gen_bytes(rng, is_str, n)) }
+                    1 => { let n = *rng.pick(&[1, 5, 24]); cur += n; VOp::Extend(gen_bytes(rng, ty, n)) }
+                    2 if ty.is_wrapper() => VOp::Reserve(*rng.pick(&[3, 40])),      // no truncate on OsString / PathBuf
                     2 => { let m = boundary_of(sh, is_str, rng.below(cur.min(len) + 1)); if cur > len { VOp::Reserve(3) } else { cur = m; VOp::Truncate(m) } }
                     3 => { cur = 0; VOp::Clear }
                     4 => VOp::Reserve(*rng.pick(&[0, 1, 16, 100])),
@@ -541,7 +648,9 @@ fn boundary_of(sh: &[u8], is_str: bool, i: usize) -> usize {
 }
 
 /// Fixed sequences: the refuted witnesses of DESIGN.md section 7 and minimised disagreements found while building.
-pub fn corpus(is_str: bool) -> Vec<Vec<Op>> {
+pub fn corpus(ty: Ty) -> Vec<Vec<Op>> {
+    if ty.is_wrapper() { return corpus_wrappers(ty); }
+    let is_str = ty.is_str();
     let b = |n: usize| -> Vec<u8> { if is_str { (0..n).map(|i| b'a' + (i % 26) as u8).collect() } else { (0..n as u8).collect() } };
     use Bound::*;
     vec![
@@ -560,8 +669,38 @@ pub fn corpus(is_str: bool) -> Vec<Vec<Op>> {
     ]
 }
 
-fn run_case<B: Backend>(bk: &str, is_str: bool, ops_src: &mut dyn FnMut(&Pool<B>, usize) -> Option<Op>, sum: &mut Summary, w: &mut CaseWriter, case_desc: &str) {
-    let mut pool: Pool<B> = Pool::new(is_str, bk == "BUnique");
+/// The fixed sequences restated with the ops HipOsStr has (sub-slices through `slice_ref`, edits through `push` and the `mutate`
+/// guard); for HipPath the ops it lacks are replaced by the nearest op that keeps the handle numbering.
+fn corpus_wrappers(ty: Ty) -> Vec<Vec<Op>> {
+    let b = |n: usize| -> Vec<u8> {
+        if ty == Ty::Path { (0..n).map(|i| match i % 7 { 0 => b'/', 3 => b'.', 4 if i % 2 == 0 => b'.', _ => 0x60 + i as u8 }).collect() } else { (0..n).map(|i| 0x70u8.wrapping_add(i as u8 * 3)).collect() }
+    };
+    let seqs = vec![
+        vec![Op::WithCapacity(30), Op::PushSlice(0, b(10)), Op::Clone(0), Op::SliceRef(0, 2, 5), Op::ShrinkToFit(0), Op::IntoVec(0), Op::IntoVec(1)],
+        vec![Op::FromSlice(b(40)), Op::SliceRef(0, 2, 28), Op::Drop(0), Op::Clone(1), Op::Drop(1)],
+        vec![Op::FromSlice(b(40)), Op::ForceCount(0, 0), Op::SliceRefU(0, 2, 28), Op::Clone(0), Op::RestoreCount(0), Op::Drop(0), Op::PushSlice(1, b(3))],
+        vec![Op::FromSlice(b(40)), Op::ForceCount(0, 1), Op::Clone(0), Op::Clone(0), Op::SliceRef(0, 1, 39), Op::RestoreCount(0), Op::Drop(0)],
+        vec![Op::FromVec(b(30), 10), Op::Clone(0), Op::PushSlice(0, b(4)), Op::Drop(1), Op::PushSlice(0, b(4)), Op::PushSlice(0, b(40)), Op::IntoVec(0)],
+        vec![Op::FromSlice(b(40)), Op::SliceRef(0, 5, 35), Op::Drop(0), Op::IntoVec(1), Op::PushSlice(1, b(2)), Op::IntoVec(1)],
+        vec![Op::FromSlice(b(40)), Op::Mutate(0, vec![VOp::Push(b'x'), VOp::Reserve(100)], false), Op::Mutate(0, vec![VOp::Extend(b(30))], true), Op::PushSlice(0, b(30))],
+        vec![Op::Borrowed(b(40)), Op::Clone(0), Op::SliceRef(0, 3, 6), Op::PushSlice(1, b(1)), Op::IntoOwned(2), Op::AsBorrowed(0), Op::IntoBorrowed(0), Op::IntoBorrowed(1), Op::VecFrom(1)],
+        vec![Op::FromSlice(b(30)), Op::Clone(0), Op::ShrinkTo(0, 0), Op::WithCapacity(100), Op::ShrinkTo(2, 50), Op::ShrinkTo(2, 10), Op::ShrinkToFit(0)],
+        vec![Op::FromVec(b(12), 0), Op::Mutate(0, vec![VOp::Clear, VOp::ShrinkFit], false), Op::Mutate(0, vec![VOp::Extend(b(24)), VOp::Clear], false), Op::Mutate(0, vec![VOp::Extend(b(23)), VOp::Push(b'/')], false), Op::VecFrom(0)],
+        vec![Op::New, Op::SliceRefForeign(0, true), Op::SliceRefForeign(0, false), Op::PushSlice(0, b(23)), Op::Clone(0), Op::PushSlice(0, b(1)), Op::IntoVec(0), Op::VecFrom(1)],
+        vec![Op::FromVec(b(23), 30), Op::FromVec(b(24), 0), Op::Clone(1), Op::IntoVec(1), Op::VecFrom(1), Op::IntoVec(2), Op::IntoOwned(0), Op::IntoBorrowed(0)],
+    ];
+    if ty == Ty::Os { return seqs; }
+    seqs.into_iter().map(|seq| seq.into_iter().map(|op| match op {
+        Op::WithCapacity(_) => Op::New,
+        Op::PushSlice(h, x) => Op::Mutate(h, vec![VOp::Extend(x)], false),
+        Op::SliceRef(h, ..) | Op::SliceRefU(h, ..) => Op::Clone(h),
+        Op::SliceRefForeign(h, _) => Op::AsBorrowed(h),
+        op => op,
+    }).collect()).collect()
+}
+
+fn run_case<B: Backend>(bk: &str, ty: Ty, ops_src: &mut dyn FnMut(&Pool<B>, usize) -> Option<Op>, sum: &mut Summary, w: &mut CaseWriter, case_desc: &str) {
+    let mut pool: Pool<B> = Pool::new(ty, bk == "BUnique");
     alloc::reset_window_counters();
     let base = alloc::snap();
     let mut steps: Vec<String> = vec![];
@@ -582,7 +721,7 @@ fn run_case<B: Backend>(bk: &str, is_str: bool, ops_src: &mut dyn FnMut(&Pool<B>
         };
         if matches!(op, Op::WithCapacity(_)) { used_with_capacity = true; }
         let pre = alloc::snap();
-        breadcrumb(&format!("bytes {} bk={} ty={}: {} ; {} -> ?", case_desc, bk, if is_str { "str" } else { "byt" }, trace.join(" ; "), op.coq()));
+        breadcrumb(&format!("bytes {} bk={} ty={}: {} ; {} -> ?", case_desc, bk, ty.name(), trace.join(" ; "), op.coq()));
         let out = pool.exec(&op);
         alloc::set_window(false);
         let mut s = alloc::snap();
@@ -617,19 +756,20 @@ fn run_case<B: Backend>(bk: &str, is_str: bool, ops_src: &mut dyn FnMut(&Pool<B>
         if obs.contains(" 3 ") { nontrivial = true; }
         sum.evaluations += 1;
         sum.count(op.coq().split(' ').next().unwrap());
+        sum.count(&format!("ty={}", ty.name()));
         trace.push(format!("{} -> {}", op.coq(), out.coq()));
         steps.push(format!("BStep ({}) {} {} {} {} {} {}", op.coq(), out.coq(), obs, s.allocs - base.allocs, s.frees - base.frees, s.reallocs - base.reallocs, s.live - base.live));
         if !pool.viol.is_empty() { break; }
     }
     if !pool.viol.is_empty() {
-        sum.violation(format!("{{\"what\":{},\"observed\":{},\"ops\":{}}}", jstr(&format!("bytes {} bk={} ty={} prof={}", case_desc, bk, if is_str { "str" } else { "byt" }, profile())),
+        sum.violation(format!("{{\"what\":{},\"observed\":{},\"ops\":{}}}", jstr(&format!("bytes {} bk={} ty={} prof={}", case_desc, bk, ty.name(), profile())),
             jstr(&pool.viol.join(" | ")), jstr(&trace.join(" ; "))));
     } else {
         // C03: when everything is dropped, every block obtained has been released (except leaked guards' buffers, which the model counts too)
     }
-    w.push(format!("BCase {} {} [\n    {}]", bk, if is_str { "TStr" } else { "TByt" }, steps.join(";\n    ")));
+    w.push(format!("BCase {} {} [\n    {}]", bk, ty.coq(), steps.join(";\n    ")));
     if nontrivial { sum.nontrivial += 1; }
-    if sum.samples.len() < 4000 { sum.sample(jstr(&format!("{} {} {}: {}", bk, if is_str { "str" } else { "byt" }, case_desc, trace.join(" ; ")))); }
+    if sum.samples.len() < 4000 { sum.sample(jstr(&format!("{} {} {}: {}", bk, ty.name(), case_desc, trace.join(" ; ")))); }
     // release what the case still holds (outside any comparison)
     for h in pool.hs.iter() { if let Some(h) = h { if !pool.unique_backend { if let Some(me) = h.raw().verif_repr() { let n = pool.hs.iter().flatten().filter(|x| x.raw().verif_repr().map_or(false, |r| r[0] == me[0])).count(); h.raw().verif_force_count(n - 1); } } } }
     drop(pool);
@@ -638,13 +778,15 @@ fn run_case<B: Backend>(bk: &str, is_str: bool, ops_src: &mut dyn FnMut(&Pool<B>
 fn drive<B: Backend>(bk: &str, tier: &str, seed: u64, sum: &mut Summary, w: &mut CaseWriter, filter: Option<&str>, focus: &str) {
     let thorough = tier == "thorough";
     let seed = seed.wrapping_add(match focus { "sharing" => 101, "heap" => 202, "repr" => 303, "ceiling" => 404, "utf8" => 505, _ => 0 });
-    if focus == "utf8" { utf8_stream::<B>(bk, thorough, sum, w); }
-    if focus == "repr" { repr_sweep::<B>(bk, thorough, sum, w); }
-    for is_str in [false, true] {
-        if let Some(f) = filter { if (f == "str") != is_str && (f == "str" || f == "byt") { continue; } }
-        if focus == "utf8" && !is_str { continue; }
+    // the positional filter: one of the four type names, anything else ("all", nothing) selects every type
+    let selected = |ty: Ty| -> bool { match filter { Some(f) if ALL_TY.iter().any(|t| t.name() == f) => f == ty.name(), _ => true } };
+    if focus == "utf8" && selected(Ty::Str) { utf8_stream::<B>(bk, thorough, sum, w); }
+    if focus == "repr" { repr_sweep::<B>(bk, thorough, sum, w, &selected); }
+    for ty in ALL_TY {
+        if !selected(ty) { continue; }
+        if focus == "utf8" && !ty.is_str() { continue; }
         // corpus first
-        for (ci, seq) in corpus(is_str).into_iter().enumerate() {
+        for (ci, seq) in corpus(ty).into_iter().enumerate() {
             let ends = seq.clone();
             let mut it = 0;
             let mut src = |p: &Pool<B>, k: usize| -> Option<Op> {
@@ -655,12 +797,13 @@ fn drive<B: Backend>(bk: &str, tier: &str, seed: u64, sum: &mut Summary, w: &mut
                 it += 1;
                 if it % 2 == 1 { Some(Op::RestoreCount(live[0])) } else { Some(Op::Drop(live[0])) }
             };
-            run_case::<B>(bk, is_str, &mut src, sum, w, &format!("corpus#{}", ci));
+            run_case::<B>(bk, ty, &mut src, sum, w, &format!("corpus#{}", ci));
         }
         // structured random sequences
         let n_cases = if thorough { 400 } else if focus == "content" { 60 } else { 30 };
+        let n_cases = if ty.is_wrapper() { n_cases / 2 } else { n_cases };      // fewer op kinds to cover
         for c in 0..n_cases {
-            let mut rng = Rng::new(seed.wrapping_mul(1000003).wrapping_add(c as u64 * 7919 + if is_str { 1 } else { 0 } + bk.len() as u64 * 31));
+            let mut rng = Rng::new(seed.wrapping_mul(1000003).wrapping_add(c as u64 * 7919 + ty.idx() + bk.len() as u64 * 31));
             let n_ops = 15 + rng.below(if thorough { 60 } else { 35 });
             let force_ok = bk != "BUnique" && (focus == "ceiling" || rng.chance(1, 3));
             let mut phase2 = 0usize;
@@ -672,7 +815,7 @@ fn drive<B: Backend>(bk: &str, tier: &str, seed: u64, sum: &mut Summary, w: &mut
                 let h = live[rng.below(live.len())];
                 if phase2 % 2 == 1 { Some(Op::RestoreCount(h)) } else { Some(Op::Drop(h)) }
             };
-            run_case::<B>(bk, is_str, &mut src, sum, w, &format!("random#{}", c));
+            run_case::<B>(bk, ty, &mut src, sum, w, &format!("random#{}", c));
         }
     }
 }
@@ -702,7 +845,7 @@ fn utf8_stream<B: Backend>(bk: &str, thorough: bool, sum: &mut Summary, w: &mut 
                 if k < ops.len() { return Some(ops[k].clone()); }
                 (0..p.hs.len()).find(|&i| p.hs[i].is_some()).map(Op::Drop)
             };
-            run_case::<B>(bk, true, &mut src, sum, w, &format!("utf8-boundary-sweep slices mk={}", mk));
+            run_case::<B>(bk, Ty::Str, &mut src, sum, w, &format!("utf8-boundary-sweep slices mk={}", mk));
             // handle i+1 is a clone, truncated at i (a refused truncation panics and leaves it unchanged)
             let mut ops: Vec<Op> = vec![mk_op];
             for _ in 0..=m { ops.push(Op::Clone(0)); }
@@ -711,7 +854,7 @@ fn utf8_stream<B: Backend>(bk: &str, thorough: bool, sum: &mut Summary, w: &mut 
                 if k < ops.len() { return Some(ops[k].clone()); }
                 (0..p.hs.len()).find(|&i| p.hs[i].is_some()).map(Op::Drop)
             };
-            run_case::<B>(bk, true, &mut src, sum, w, &format!("utf8-boundary-sweep truncations mk={}", mk));
+            run_case::<B>(bk, Ty::Str, &mut src, sum, w, &format!("utf8-boundary-sweep truncations mk={}", mk));
         }
     }
     for chunk in inputs.chunks(40) {
@@ -725,29 +868,334 @@ fn utf8_stream<B: Backend>(bk: &str, thorough: bool, sum: &mut Summary, w: &mut 
             // pop each accepted value once, then drop it
             if k2 % 2 == 1 { Some(Op::Pop(live[0])) } else { Some(Op::Drop(live[0])) }
         };
-        run_case::<B>(bk, true, &mut src, sum, w, "utf8-stream");
+        run_case::<B>(bk, Ty::Str, &mut src, sum, w, "utf8-stream");
     }
 }
 
 /// C07 sweep: every constructor x every length 0..=64 (and a few large ones), then clone / long slice / short slice / into_vec.
-fn repr_sweep<B: Backend>(bk: &str, thorough: bool, sum: &mut Summary, w: &mut CaseWriter) {
+fn repr_sweep<B: Backend>(bk: &str, thorough: bool, sum: &mut Summary, w: &mut CaseWriter, selected: &dyn Fn(Ty) -> bool) {
     let mut lens: Vec<usize> = (0..=64).collect();
     if thorough { lens.extend_from_slice(&[255, 256, 4096]); }
-    for is_str in [false, true] {
+    for ty in ALL_TY {
+        if !selected(ty) { continue; }
         for &n in &lens {
+            // quick tier, wrappers: every length around the inline capacity, a sample above
+            if ty.is_wrapper() && !thorough && n > 32 && ![40, 47, 48, 63, 64].contains(&n) { continue; }
             let x: Vec<u8> = (0..n).map(|i| b'a' + (i % 26) as u8).collect();
-            let mut ops = vec![Op::FromSlice(x.clone()), Op::FromVec(x.clone(), 0), Op::FromVec(x.clone(), 9), Op::Borrowed(x.clone()), Op::WithCapacity(n), Op::PushSlice(4, x.clone())];
-            if !is_str { ops.push(Op::TryInline(x.clone())); } else { ops.push(Op::New); }
+            let mut ops = vec![Op::FromSlice(x.clone()), Op::FromVec(x.clone(), 0), Op::FromVec(x.clone(), 9), Op::Borrowed(x.clone())];
+            if ty == Ty::Path { ops.push(Op::New); ops.push(Op::Mutate(4, vec![VOp::Reserve(n), VOp::Extend(x.clone())], false)); } else { ops.push(Op::WithCapacity(n)); ops.push(Op::PushSlice(4, x.clone())); }
+            if ty == Ty::Byt { ops.push(Op::TryInline(x.clone())); } else { ops.push(Op::New); }
             for h in 0..5 { ops.push(Op::Clone(h)); }
+            if ty.is_wrapper() {
+                // same shape with the ops the wrappers have: sub-slices by reference (HipOsStr), clones (HipPath)
+                if ty == Ty::Os {
+                    ops.push(Op::SliceRef(0, n.min(1), n - n.min(1))); ops.push(Op::SliceRefU(2, 0, n.min(5))); ops.push(Op::SliceRef(3, n / 2, n - n / 2));
+                } else { ops.push(Op::Clone(0)); ops.push(Op::Clone(2)); ops.push(Op::Clone(3)); }
+                ops.push(Op::Mutate(7, vec![VOp::Clear], false)); ops.push(Op::IntoVec(1)); ops.push(Op::Drop(8)); ops.push(Op::IntoVec(1)); ops.push(Op::ShrinkToFit(2)); ops.push(Op::VecFrom(4)); ops.push(Op::IntoBorrowed(3));
+            } else {
             ops.push(Op::TrySlice(0, Bound::Included(1), Bound::Unbounded));
             ops.push(Op::TrySlice(2, Bound::Included(0), Bound::Excluded(n.min(5))));
             ops.push(Op::TrySlice(3, Bound::Included(n / 2), Bound::Unbounded));
             ops.push(Op::Clear(7)); ops.push(Op::IntoVec(1)); ops.push(Op::Drop(8)); ops.push(Op::IntoVec(1)); ops.push(Op::ShrinkToFit(2)); ops.push(Op::Truncate(4, 3));
+            }
             let mut src = |p: &Pool<B>, k: usize| -> Option<Op> {
                 if k < ops.len() { return Some(ops[k].clone()); }
                 (0..p.hs.len()).find(|&i| p.hs[i].is_some()).map(Op::Drop)
             };
-            run_case::<B>(bk, is_str, &mut src, sum, w, &format!("repr-sweep len={}", n));
+            run_case::<B>(bk, ty, &mut src, sum, w, &format!("repr-sweep len={}", n));
+        }
+    }
+}
+
+// ------------------------------------------------------------------------------------------------ wrappers_api
+// Std-differential checks of the HipOsStr / HipPath surface and of every From / Into / TryFrom / AsRef / Borrow conversion of
+// {bytes,string,os_string,path}/convert.rs, on every representation. No Coq cases: std is the oracle for the content, and the
+// representation rules are: a move between Hip types keeps the representation (a borrowed source stays the same borrow), a value
+// built from a std value is normalised (inline up to 23 bytes, heap above; `Cow::Borrowed` gives a borrow).
+type Byt<B> = HipByt<'static, B>;
+type Str<B> = HipStr<'static, B>;
+type Os<B> = HipOsStr<'static, B>;
+type Pth<B> = HipPath<'static, B>;
+
+fn kind_of<B: Backend>(b: &HipByt<'_, B>) -> &'static str { if b.is_borrowed() { "borrowed" } else if b.is_inline() { "inline" } else { "heap" } }
+
+/// What a resulting Hip value must look like.
+#[derive(Clone, Copy)]
+struct Exp { kind: &'static str, norm: bool, ptr: Option<usize> }
+impl Exp {
+    /// the representation of `b` itself (moves, clones of a borrow, handed-back originals); the data pointer is pinned for a
+    /// borrow and, when `pin_heap`, for a heap value (inline data moves with the value)
+    fn of<B: Backend>(b: &HipByt<'_, B>, pin_heap: bool) -> Exp {
+        let kind = kind_of(b);
+        Exp { kind, norm: b.is_normalized(), ptr: if kind == "borrowed" || (kind == "heap" && pin_heap) { Some(b.as_ptr() as usize) } else { None } }
+    }
+    /// a normalised value built from `len` bytes of a std value
+    fn fresh(len: usize) -> Exp { Exp { kind: if len <= 23 { "inline" } else { "heap" }, norm: true, ptr: None } }
+    fn borrow_of(src: &[u8]) -> Exp { Exp { kind: "borrowed", norm: true, ptr: Some(src.as_ptr() as usize) } }
+}
+
+struct Chk<'a> { sum: &'a mut Summary, bk: &'a str, rep: &'static str, input: String }
+impl Chk<'_> {
+    fn cmp(&mut self, method: &str, observed: String, expected: String) {
+        self.sum.evaluations += 1;
+        self.sum.count("wrappers_api");
+        if observed != expected {
+            self.sum.violation(format!("{{\"what\":{},\"observed\":{},\"expected\":{}}}",
+                jstr(&format!("wrappers_api {} rep={} bk={} input={} prof={}", method, self.rep, self.bk, self.input, profile())), jstr(&observed), jstr(&expected)));
+        }
+    }
+    /// a std result: the bytes
+    fn std_(&mut self, method: &str, got: &[u8], exp: &[u8]) { self.cmp(method, hex(got), hex(exp)); }
+    /// a Hip result: the bytes, the representation, normalisation, and (when pinned) the data pointer
+    fn hip<B: Backend>(&mut self, method: &str, got: &HipByt<'_, B>, exp: &[u8], e: Exp) {
+        let same = e.ptr.map_or(true, |p| p == got.as_ptr() as usize);
+        self.cmp(method, format!("{} {} normalized={} same_buffer={}", hex(got.as_slice()), kind_of(got), got.is_normalized(), same),
+            format!("{} {} normalized={} same_buffer=true", hex(exp), e.kind, e.norm));
+    }
+}
+
+const WRAPPER_REPS: [&str; 4] = ["borrowed", "owned", "heap-spare", "heap-shared"];
+/// The value under test in representation `mk`: borrowed / owned (inline up to 23 bytes, else sole-owner heap) / heap with spare
+/// capacity (not normalised when short) / heap shared with a second handle (returned, to be kept alive). None when `mk` adds nothing.
+fn mk_os<B: Backend>(mk: usize, x: &[u8], leaked: &'static [u8]) -> Option<(Os<B>, Option<Os<B>>)> {
+    match mk {
+        0 => Some((Os::<B>::borrowed(os(leaked)), None)),
+        1 => Some((Os::<B>::from(os(x)), None)),
+        2 => { let mut h = Os::<B>::with_capacity(x.len() + 40); h.push(os(x)); Some((h, None)) }
+        _ => { if x.len() <= 23 { return None; } let h = Os::<B>::from(os(x)); let k = h.clone(); Some((h, Some(k))) }
+    }
+}
+
+fn wrappers_api<B: Backend>(bk: &str, sum: &mut Summary) {
+    let long: Vec<u8> = (0..40u8).map(|i| b'a' + i % 26).collect();
+    let mut inputs: Vec<Vec<u8>> = vec![
+        vec![], b"a".to_vec(), b"abc".to_vec(), long[..23].to_vec(), long[..24].to_vec(), long.clone(),
+        b"/".to_vec(), b"a/b".to_vec(), b"/abs/path".to_vec(), b".".to_vec(), b"..".to_vec(), b"a/./b".to_vec(), b"a/../b".to_vec(), b"../up".to_vec(),
+        b"dir/".to_vec(), b"a//b".to_vec(), b"/usr/lib/with/a/long/tail/of/components/./and/../dots/".to_vec(), b"twenty-three/bytes/long".to_vec(), b"twenty-four/bytes/long/.".to_vec(),
+        vec![0x80], vec![0xFF], b"a\x80/b\xFF".to_vec(), b"caf\xC3\xA9/\xE2\x82\xAC".to_vec(), b"\xC3".to_vec(), b"ok-then-\xED\xA0\x80-surrogate".to_vec(),
+    ];
+    inputs.push({ let mut v = long.clone(); v[17] = 0xFF; v[30] = 0x80; v });
+    inputs.push({ let mut v = long[..23].to_vec(); v[22] = 0x80; v });
+    inputs.push({ let mut v = long[..24].to_vec(); v[0] = 0xFF; v[12] = b'/'; v });
+    let args: [&[u8]; 10] = [b"", b"rel", b"x/y", b"/abs", b"/", b"..", b".", b"\xFFz", b"trailing/", b"a-relative-argument/longer-than-the-inline-capacity"];
+
+    for x in &inputs {
+        let leaked: &'static [u8] = Box::leak(x.clone().into_boxed_slice());
+        let utf8: Option<&str> = std::str::from_utf8(x).ok();
+        let sutf8: Option<&'static str> = std::str::from_utf8(leaked).ok();
+        for mk in 0..WRAPPER_REPS.len() {
+            let Some((probe, _keep)) = mk_os::<B>(mk, x, leaked) else { continue };
+            let mut c = Chk { sum: &mut *sum, bk, rep: WRAPPER_REPS[mk], input: hex(x) };
+            let os_ = || mk_os::<B>(mk, x, leaked).unwrap();
+            let pth = || { let (o, k) = mk_os::<B>(mk, x, leaked).unwrap(); (Pth::<B>::from(o), k) };
+            // the representation the maker promises
+            let want = match mk { 0 => "borrowed", 1 => if x.len() <= 23 { "inline" } else { "heap" }, _ => "heap" };
+            c.cmp("maker", kind_of(probe.verif_bytes()).to_string(), want.to_string());
+            let sole_owner = probe.is_allocated() && (mk != 3 || bk == "BUnique");
+            drop(probe); drop(_keep);
+
+            // ---- HipOsStr: views
+            { let (h, _k) = os_();
+              c.std_("HipOsStr::as_os_str", h.as_os_str().as_bytes(), x);
+              c.std_("HipOsStr as AsRef<OsStr>", AsRef::<OsStr>::as_ref(&h).as_bytes(), x);
+              c.std_("HipOsStr as AsRef<Path>", AsRef::<Path>::as_ref(&h).as_os_str().as_bytes(), x);
+              c.std_("HipOsStr as Borrow<OsStr>", std::borrow::Borrow::<OsStr>::borrow(&h).as_bytes(), x);
+              c.cmp("HipOsStr::len/is_empty", format!("{} {}", h.len(), h.is_empty()), format!("{} {}", x.len(), x.is_empty())); }
+            // ---- HipOsStr::to_str / to_str_lossy / into_str
+            { let (h, _k) = os_(); let e = Exp::of(h.verif_bytes(), false);
+              match (h.to_str(), os(x).to_str()) {
+                  (Some(g), Some(w)) => c.hip("HipOsStr::to_str", g.verif_bytes(), w.as_bytes(), e),
+                  (g, w) => c.cmp("HipOsStr::to_str", format!("is_some={}", g.is_some()), format!("is_some={}", w.is_some())),
+              }
+              c.hip("HipOsStr::to_str leaves self", h.verif_bytes(), x, Exp::of(h.verif_bytes(), true)); }
+            { let (h, _k) = os_();
+              let w = os(x).to_string_lossy();
+              let e = match &w { Cow::Borrowed(_) => Exp::of(h.verif_bytes(), false), Cow::Owned(s) => Exp::fresh(s.len()) };
+              let g = h.to_str_lossy();
+              c.hip("HipOsStr::to_str_lossy", g.verif_bytes(), w.as_bytes(), e);
+              c.cmp("HipOsStr::to_str_lossy text", g.as_str().to_string(), w.to_string()); }
+            { let (h, _k) = os_(); let e = Exp::of(h.verif_bytes(), true);
+              match (h.into_str(), utf8) {
+                  (Ok(g), Some(w)) => c.hip("HipOsStr::into_str", g.verif_bytes(), w.as_bytes(), e),
+                  (Err(orig), None) => c.hip("HipOsStr::into_str Err(original)", orig.verif_bytes(), x, e),
+                  (g, w) => c.cmp("HipOsStr::into_str", format!("is_ok={}", g.is_ok()), format!("is_ok={}", w.is_some())),
+              } }
+            // ---- HipOsStr::into_bytes / into_os_string and the Into conversions
+            { let (h, _k) = os_(); let e = Exp::of(h.verif_bytes(), true); c.hip("HipOsStr::into_bytes", &h.into_bytes(), x, e); }
+            { let (h, _k) = os_(); let e = Exp::of(h.verif_bytes(), true); c.hip("HipByt::from(HipOsStr)", &Byt::<B>::from(h), x, e); }
+            { let (h, _k) = os_(); let e = Exp::of(h.verif_bytes(), true); let p = h.verif_bytes().as_ptr() as usize;
+              match h.into_os_string() {
+                  Ok(v) => { c.cmp("HipOsStr::into_os_string", format!("Ok same_buffer={}", v.as_bytes().as_ptr() as usize == p), format!("{} same_buffer=true", if sole_owner { "Ok" } else { "Err" })); c.std_("HipOsStr::into_os_string Ok", v.as_bytes(), x); }
+                  Err(orig) => { c.cmp("HipOsStr::into_os_string", "Err".into(), if sole_owner { "Ok" } else { "Err" }.into()); c.hip("HipOsStr::into_os_string Err(original)", orig.verif_bytes(), x, e); }
+              } }
+            { let (h, _k) = os_(); c.std_("OsString::from(HipOsStr)", OsString::from(h).as_bytes(), x); }
+            { let (h, _k) = os_(); c.std_("Vec<u8>::from(HipOsStr)", &Vec::<u8>::from(h), x); }
+            { let (h, _k) = os_(); let b = h.is_borrowed(); let p = h.verif_bytes().as_ptr() as usize;
+              let w: Cow<'static, OsStr> = h.into();
+              c.cmp("Cow<OsStr>::from(HipOsStr)", format!("{} borrowed={}", hex(w.as_bytes()), matches!(w, Cow::Borrowed(r) if r.as_bytes().as_ptr() as usize == p)), format!("{} borrowed={}", hex(x), b)); }
+            { let (h, _k) = os_(); let e = Exp::of(h.verif_bytes(), true); c.hip("HipPath::from(HipOsStr)", Pth::<B>::from(h).verif_bytes(), x, e); }
+            { let (h, _k) = os_(); let e = Exp::of(h.verif_bytes(), bk != "BUnique"); c.hip("HipPath::from(&HipOsStr)", Pth::<B>::from(&h).verif_bytes(), x, e); }
+
+            // ---- HipPath: views
+            { let (p, _k) = pth();
+              c.std_("HipPath::as_path", p.as_path().as_os_str().as_bytes(), x);
+              c.std_("HipPath::as_os_str", p.as_os_str().as_bytes(), x);
+              c.std_("HipPath as AsRef<Path>", AsRef::<Path>::as_ref(&p).as_os_str().as_bytes(), x);
+              c.std_("HipPath as AsRef<OsStr>", AsRef::<OsStr>::as_ref(&p).as_bytes(), x);
+              c.std_("HipPath as Borrow<Path>", std::borrow::Borrow::<Path>::borrow(&p).as_os_str().as_bytes(), x);
+              c.std_("HipPath as Borrow<OsStr>", std::borrow::Borrow::<OsStr>::borrow(&p).as_bytes(), x);
+              c.cmp("HipPath components", format!("{:?}", p.components().collect::<Vec<_>>()), format!("{:?}", pa(x).components().collect::<Vec<_>>()));
+              c.cmp("HipPath file_name/parent", format!("{:?} {:?}", p.file_name(), p.parent()), format!("{:?} {:?}", pa(x).file_name(), pa(x).parent())); }
+            // ---- appends through the guard (this revision has no HipPath::push / push_str: `mutate()` derefs to PathBuf)
+            for a in args {
+                { let (mut p, _k) = pth();
+                  p.mutate().push(pa(a));
+                  let mut w = PathBuf::from(OsString::from_vec(x.clone())); w.push(pa(a));
+                  let wb = w.as_os_str().as_bytes();
+                  c.hip(&format!("HipPath::mutate().push({})", hex(a)), p.verif_bytes(), wb, Exp::fresh(wb.len()));
+                  if let Some(k) = &_k { c.std_(&format!("HipPath::mutate().push({}) leaves the other owner", hex(a)), k.as_bytes(), x); } }
+                { let (mut p, _k) = pth();
+                  p.mutate().as_mut_os_string().push(os(a));
+                  let mut w = OsString::from_vec(x.clone()); w.push(os(a));
+                  c.hip(&format!("HipPath::mutate().as_mut_os_string().push({})", hex(a)), p.verif_bytes(), w.as_bytes(), Exp::fresh(w.len())); }
+                { let (mut h, _k) = os_();
+                  let spare = h.verif_bytes().capacity() >= x.len() + a.len() && h.is_allocated() && sole_owner;
+                  let e = if spare { Exp { norm: x.len() + a.len() > 23, ..Exp::of(h.verif_bytes(), true) } } else { Exp::fresh(x.len() + a.len()) };
+                  h.push(os(a));
+                  let mut w = OsString::from_vec(x.clone()); w.push(os(a));
+                  // in place when the sole owner has room; otherwise a fresh normalised value
+                  c.hip(&format!("HipOsStr::push({})", hex(a)), h.verif_bytes(), w.as_bytes(), e); }
+                { let (mut h, _k) = os_();
+                  h.mutate().push(os(a));
+                  let mut w = OsString::from_vec(x.clone()); w.push(os(a));
+                  c.hip(&format!("HipOsStr::mutate().push({})", hex(a)), h.verif_bytes(), w.as_bytes(), Exp::fresh(w.len())); }
+            }
+            // ---- HipPath::into_os_str / into_str / into_os_string / into_path_buf and the Into conversions
+            { let (p, _k) = pth(); let e = Exp::of(p.verif_bytes(), true); c.hip("HipPath::into_os_str", p.into_os_str().verif_bytes(), x, e); }
+            { let (p, _k) = pth(); let e = Exp::of(p.verif_bytes(), true); c.hip("HipOsStr::from(HipPath)", Os::<B>::from(p).verif_bytes(), x, e); }
+            { let (p, _k) = pth(); let e = Exp::of(p.verif_bytes(), bk != "BUnique"); c.hip("HipOsStr::from(&HipPath)", Os::<B>::from(&p).verif_bytes(), x, e); }
+            { let (p, _k) = pth(); let e = Exp::of(p.verif_bytes(), true);
+              match (p.into_str(), utf8) {
+                  (Ok(g), Some(w)) => c.hip("HipPath::into_str", g.verif_bytes(), w.as_bytes(), e),
+                  (Err(orig), None) => c.hip("HipPath::into_str Err(original)", orig.verif_bytes(), x, e),
+                  (g, w) => c.cmp("HipPath::into_str", format!("is_ok={}", g.is_ok()), format!("is_ok={}", w.is_some())),
+              } }
+            { let (p, _k) = pth(); let e = Exp::of(p.verif_bytes(), true); let ptr = p.verif_bytes().as_ptr() as usize;
+              match p.into_os_string() {
+                  Ok(v) => { c.cmp("HipPath::into_os_string", format!("Ok same_buffer={}", v.as_bytes().as_ptr() as usize == ptr), format!("{} same_buffer=true", if sole_owner { "Ok" } else { "Err" })); c.std_("HipPath::into_os_string Ok", v.as_bytes(), x); }
+                  Err(orig) => { c.cmp("HipPath::into_os_string", "Err".into(), if sole_owner { "Ok" } else { "Err" }.into()); c.hip("HipPath::into_os_string Err(original)", orig.verif_bytes(), x, e); }
+              } }
+            { let (p, _k) = pth(); let e = Exp::of(p.verif_bytes(), true); let ptr = p.verif_bytes().as_ptr() as usize;
+              match p.into_path_buf() {
+                  Ok(v) => { c.cmp("HipPath::into_path_buf", format!("Ok same_buffer={}", v.as_os_str().as_bytes().as_ptr() as usize == ptr), format!("{} same_buffer=true", if sole_owner { "Ok" } else { "Err" })); c.std_("HipPath::into_path_buf Ok", v.as_os_str().as_bytes(), x); }
+                  Err(orig) => { c.cmp("HipPath::into_path_buf", "Err".into(), if sole_owner { "Ok" } else { "Err" }.into()); c.hip("HipPath::into_path_buf Err(original)", orig.verif_bytes(), x, e); }
+              } }
+            { let (p, _k) = pth(); c.std_("PathBuf::from(HipPath)", PathBuf::from(p).as_os_str().as_bytes(), x); }
+            { let (p, _k) = pth(); c.std_("OsString::from(HipPath)", OsString::from(p).as_bytes(), x); }
+            { let (p, _k) = pth(); let b = p.is_borrowed(); let ptr = p.verif_bytes().as_ptr() as usize;
+              let w: Cow<'static, Path> = p.into();
+              c.cmp("Cow<Path>::from(HipPath)", format!("{} borrowed={}", hex(w.as_os_str().as_bytes()), matches!(w, Cow::Borrowed(r) if r.as_os_str().as_bytes().as_ptr() as usize == ptr)), format!("{} borrowed={}", hex(x), b)); }
+
+            // ---- HipByt in the same representation
+            { let (h, _k) = os_(); let b = h.into_bytes();
+              c.std_("HipByt as AsRef<[u8]>", AsRef::<[u8]>::as_ref(&b), x);
+              let (bb, ptr) = (b.is_borrowed(), b.as_ptr() as usize);
+              let w: Cow<'static, [u8]> = b.into();
+              c.cmp("Cow<[u8]>::from(HipByt)", format!("{} borrowed={}", hex(&w), matches!(w, Cow::Borrowed(r) if r.as_ptr() as usize == ptr)), format!("{} borrowed={}", hex(x), bb)); }
+            { let (h, _k) = os_(); c.std_("Vec<u8>::from(HipByt)", &Vec::<u8>::from(h.into_bytes()), x); }
+            { let (h, _k) = os_(); let b = h.into_bytes(); let e = Exp::of(&b, true);
+              match (Str::<B>::try_from(b), utf8) {
+                  (Ok(g), Some(w)) => c.hip("HipStr::try_from(HipByt)", g.verif_bytes(), w.as_bytes(), e),
+                  (Err(er), None) => { c.cmp("HipStr::try_from(HipByt) Err utf8_error", format!("{:?}", er.utf8_error()), format!("{:?}", std::str::from_utf8(x).unwrap_err())); c.hip("HipStr::try_from(HipByt) Err(original)", &er.into_bytes(), x, e); }
+                  (g, w) => c.cmp("HipStr::try_from(HipByt)", format!("is_ok={}", g.is_ok()), format!("is_ok={}", w.is_some())),
+              } }
+            { let (h, _k) = os_(); let b = h.into_bytes(); let e = Exp::of(&b, bk != "BUnique");
+              match (Str::<B>::try_from(&b), utf8) {
+                  (Ok(g), Some(w)) => c.hip("HipStr::try_from(&HipByt)", g.verif_bytes(), w.as_bytes(), e),
+                  (Err(er), None) => c.hip("HipStr::try_from(&HipByt) Err(bytes)", &er.into_bytes(), x, e),
+                  (g, w) => c.cmp("HipStr::try_from(&HipByt)", format!("is_ok={}", g.is_ok()), format!("is_ok={}", w.is_some())),
+              }
+              c.hip("HipStr::try_from(&HipByt) leaves the source", &b, x, Exp::of(&b, true)); }
+
+            // ---- HipStr in the same representation (well-formed inputs)
+            if utf8.is_some() {
+                let str_ = || { let (o, k) = mk_os::<B>(mk, x, leaked).unwrap(); (o.into_str().ok().expect("harness: well-formed input"), k) };
+                { let (s, _k) = str_();
+                  c.std_("HipStr as AsRef<str>", AsRef::<str>::as_ref(&s).as_bytes(), x);
+                  c.std_("HipStr as AsRef<[u8]>", AsRef::<[u8]>::as_ref(&s), x);
+                  c.std_("HipStr as AsRef<OsStr>", AsRef::<OsStr>::as_ref(&s).as_bytes(), x);
+                  c.std_("HipStr as AsRef<Path>", AsRef::<Path>::as_ref(&s).as_os_str().as_bytes(), x); }
+                { let (s, _k) = str_(); let e = Exp::of(s.verif_bytes(), true); c.hip("HipOsStr::from(HipStr)", Os::<B>::from(s).verif_bytes(), x, e); }
+                { let (s, _k) = str_(); let e = Exp::of(s.verif_bytes(), bk != "BUnique"); c.hip("HipOsStr::from(&HipStr)", Os::<B>::from(&s).verif_bytes(), x, e); }
+                { let (s, _k) = str_(); let e = Exp::of(s.verif_bytes(), true); c.hip("HipPath::from(HipStr)", Pth::<B>::from(s).verif_bytes(), x, e); }
+                { let (s, _k) = str_(); let e = Exp::of(s.verif_bytes(), bk != "BUnique"); c.hip("HipPath::from(&HipStr)", Pth::<B>::from(&s).verif_bytes(), x, e); }
+                { let (s, _k) = str_(); let e = Exp::of(s.verif_bytes(), true); c.hip("HipByt::from(HipStr)", &Byt::<B>::from(s), x, e); }
+                { let (s, _k) = str_(); c.std_("String::from(HipStr)", String::from(s).as_bytes(), x); }
+                { let (s, _k) = str_(); c.std_("OsString::from(HipStr)", OsString::from(s).as_bytes(), x); }
+                { let (s, _k) = str_(); c.std_("Vec<u8>::from(HipStr)", &Vec::<u8>::from(s), x); }
+                { let (s, _k) = str_(); let b = s.is_borrowed(); let ptr = s.as_ptr() as usize;
+                  let w: Cow<'static, str> = s.into();
+                  c.cmp("Cow<str>::from(HipStr)", format!("{} borrowed={}", hex(w.as_bytes()), matches!(w, Cow::Borrowed(r) if r.as_ptr() as usize == ptr)), format!("{} borrowed={}", hex(x), b)); }
+            }
+        }
+
+        // ---- from std values (once per input)
+        let mut c = Chk { sum: &mut *sum, bk, rep: "from-std", input: hex(x) };
+        let n = x.len();
+        let vec_spare = || { let mut v = Vec::with_capacity(n + 9); v.extend_from_slice(x); v };
+        c.hip("HipOsStr::from(&OsStr)", Os::<B>::from(os(x)).verif_bytes(), x, Exp::fresh(n));
+        c.hip("HipOsStr::from(OsString)", Os::<B>::from(OsString::from_vec(x.clone())).verif_bytes(), x, Exp::fresh(n));
+        c.hip("HipOsStr::from(OsString with spare capacity)", Os::<B>::from(OsString::from_vec(vec_spare())).verif_bytes(), x, Exp::fresh(n));
+        c.hip("HipOsStr::borrowed(&OsStr)", Os::<B>::borrowed(os(leaked)).verif_bytes(), x, Exp::borrow_of(leaked));
+        c.hip("HipOsStr::borrowed(&Path)", Os::<B>::borrowed(pa(leaked)).verif_bytes(), x, Exp::borrow_of(leaked));
+        c.hip("HipPath::from(&Path)", Pth::<B>::from(pa(x)).verif_bytes(), x, Exp::fresh(n));
+        c.hip("HipPath::from(&OsStr)", Pth::<B>::from(os(x)).verif_bytes(), x, Exp::fresh(n));
+        c.hip("HipPath::from(OsString)", Pth::<B>::from(OsString::from_vec(x.clone())).verif_bytes(), x, Exp::fresh(n));
+        c.hip("HipPath::from(PathBuf)", Pth::<B>::from(PathBuf::from(OsString::from_vec(vec_spare()))).verif_bytes(), x, Exp::fresh(n));
+        c.hip("HipPath::borrowed(&Path)", Pth::<B>::borrowed(pa(leaked)).verif_bytes(), x, Exp::borrow_of(leaked));
+        c.hip("HipPath::borrowed(&OsStr)", Pth::<B>::borrowed(os(leaked)).verif_bytes(), x, Exp::borrow_of(leaked));
+        c.hip("HipPath::from(Cow<OsStr>::Borrowed)", Pth::<B>::from(Cow::Borrowed(os(leaked))).verif_bytes(), x, Exp::borrow_of(leaked));
+        c.hip("HipPath::from(Cow<OsStr>::Owned)", Pth::<B>::from(Cow::<'static, OsStr>::Owned(OsString::from_vec(x.clone()))).verif_bytes(), x, Exp::fresh(n));
+        c.hip("HipPath::from(Cow<Path>::Borrowed)", Pth::<B>::from(Cow::Borrowed(pa(leaked))).verif_bytes(), x, Exp::borrow_of(leaked));
+        c.hip("HipPath::from(Cow<Path>::Owned)", Pth::<B>::from(Cow::<'static, Path>::Owned(pa(x).to_path_buf())).verif_bytes(), x, Exp::fresh(n));
+        c.hip("HipByt::from(&[u8])", &Byt::<B>::from(&x[..]), x, Exp::fresh(n));
+        c.hip("HipByt::from(Vec<u8>)", &Byt::<B>::from(vec_spare()), x, Exp::fresh(n));
+        c.hip("HipByt::from(Box<[u8]>)", &Byt::<B>::from(x.clone().into_boxed_slice()), x, Exp::fresh(n));
+        c.hip("HipByt::from(Cow<[u8]>::Borrowed)", &Byt::<B>::from(Cow::Borrowed(leaked)), x, Exp::borrow_of(leaked));
+        c.hip("HipByt::from(Cow<[u8]>::Owned)", &Byt::<B>::from(Cow::<'static, [u8]>::Owned(x.clone())), x, Exp::fresh(n));
+        if let Ok(a) = <&[u8; 3]>::try_from(&x[..]) { c.hip("HipByt::from(&[u8; 3])", &Byt::<B>::from(a), x, Exp::fresh(n)); }
+        if let Ok(a) = <&[u8; 24]>::try_from(&x[..]) { c.hip("HipByt::from(&[u8; 24])", &Byt::<B>::from(a), x, Exp::fresh(n)); }
+        match (Str::<B>::try_from(&x[..]), utf8) {
+            (Ok(g), Some(w)) => c.hip("HipStr::try_from(&[u8])", g.verif_bytes(), w.as_bytes(), Exp::fresh(n)),
+            (Err(er), None) => c.cmp("HipStr::try_from(&[u8]) Err", format!("{:?}", er), format!("{:?}", std::str::from_utf8(x).unwrap_err())),
+            (g, w) => c.cmp("HipStr::try_from(&[u8])", format!("is_ok={}", g.is_ok()), format!("is_ok={}", w.is_some())),
+        }
+        match (Str::<B>::try_from(vec_spare()), String::from_utf8(x.clone())) {
+            (Ok(g), Ok(w)) => c.hip("HipStr::try_from(Vec<u8>)", g.verif_bytes(), w.as_bytes(), Exp::fresh(n)),
+            (Err(er), Err(w)) => { c.cmp("HipStr::try_from(Vec<u8>) Err", format!("{:?}", er.utf8_error()), format!("{:?}", w.utf8_error())); c.std_("HipStr::try_from(Vec<u8>) Err(original)", &er.into_bytes(), x); }
+            (g, w) => c.cmp("HipStr::try_from(Vec<u8>)", format!("is_ok={}", g.is_ok()), format!("is_ok={}", w.is_ok())),
+        }
+        if let (Some(s), Some(ls)) = (utf8, sutf8) {
+            let string_spare = || String::from_utf8(vec_spare()).unwrap();
+            c.hip("HipStr::from(&str)", Str::<B>::from(s).verif_bytes(), x, Exp::fresh(n));
+            c.hip("HipStr::from(String)", Str::<B>::from(string_spare()).verif_bytes(), x, Exp::fresh(n));
+            c.hip("HipStr::from(Box<str>)", Str::<B>::from(Box::<str>::from(s)).verif_bytes(), x, Exp::fresh(n));
+            c.hip("HipStr::from(Cow<str>::Borrowed)", Str::<B>::from(Cow::Borrowed(ls)).verif_bytes(), x, Exp::borrow_of(leaked));
+            c.hip("HipStr::from(Cow<str>::Owned)", Str::<B>::from(Cow::<'static, str>::Owned(string_spare())).verif_bytes(), x, Exp::fresh(n));
+            c.hip("HipOsStr::from(&str)", Os::<B>::from(s).verif_bytes(), x, Exp::fresh(n));
+            c.hip("HipOsStr::from(String)", Os::<B>::from(string_spare()).verif_bytes(), x, Exp::fresh(n));
+            c.hip("HipOsStr::from(Box<str>)", Os::<B>::from(Box::<str>::from(s)).verif_bytes(), x, Exp::fresh(n));
+            c.hip("HipOsStr::from(Cow<str>::Borrowed)", Os::<B>::from(Cow::Borrowed(ls)).verif_bytes(), x, Exp::borrow_of(leaked));
+            c.hip("HipOsStr::from(Cow<str>::Owned)", Os::<B>::from(Cow::<'static, str>::Owned(string_spare())).verif_bytes(), x, Exp::fresh(n));
+            c.hip("HipOsStr::borrowed(&str)", Os::<B>::borrowed(ls).verif_bytes(), x, Exp::borrow_of(leaked));
+            c.hip("HipOsStr::from_static", Os::<B>::from_static(ls).verif_bytes(), x, Exp::borrow_of(leaked));
+            c.hip("HipPath::from(&str)", Pth::<B>::from(s).verif_bytes(), x, Exp::fresh(n));
+            c.hip("HipPath::from(String)", Pth::<B>::from(string_spare()).verif_bytes(), x, Exp::fresh(n));
+            c.hip("HipPath::from(Box<str>)", Pth::<B>::from(Box::<str>::from(s)).verif_bytes(), x, Exp::fresh(n));
+            c.hip("HipPath::from(Cow<str>::Borrowed)", Pth::<B>::from(Cow::Borrowed(ls)).verif_bytes(), x, Exp::borrow_of(leaked));
+            c.hip("HipPath::from(Cow<str>::Owned)", Pth::<B>::from(Cow::<'static, str>::Owned(string_spare())).verif_bytes(), x, Exp::fresh(n));
+            c.hip("HipPath::borrowed(&str)", Pth::<B>::borrowed(ls).verif_bytes(), x, Exp::borrow_of(leaked));
+            c.hip("HipPath::from_static", Pth::<B>::from_static(ls).verif_bytes(), x, Exp::borrow_of(leaked));
         }
     }
 }
@@ -762,6 +1210,10 @@ pub fn run(out_dir: &Path, tier: &str, seed: u64, rest: &[String]) {
     drive::<Arc>("BArc", tier, seed, &mut sum, &mut w, filter, &focus);
     drive::<Rc>("BRc", tier, seed, &mut sum, &mut w, filter, &focus);
     drive::<Unique>("BUnique", tier, seed, &mut sum, &mut w, filter, &focus);
+    // std-differential checks of the HipOsStr / HipPath surface and of the conversions (no Coq case)
+    wrappers_api::<Arc>("BArc", &mut sum);
+    wrappers_api::<Rc>("BRc", &mut sum);
+    wrappers_api::<Unique>("BUnique", &mut sum);
     w.flush();
     sum.files = w.files.clone();
     sum.notes.push(format!("profile={} allocator_errors={}", profile(), alloc::error_detail()));
